@@ -497,4 +497,8 @@ pub fn run(run: &mut Run) {
     crate::engine::Tier::Thorough => (200_000, 24, 1_048_576),
   };
   run.prop("random_frames", cases, 16, 2000, case_strategy(max_frames, max_random), prop_case);
+  // coverage-guided stage: arbitrary bytes into the stateful decoder against the reference decoder
+  if run.tier == crate::engine::Tier::Thorough || run.replay_case("fuzz_decoders").is_some() {
+    crate::fuzzstage::run(run, "decoders", 400_000);
+  }
 }
